@@ -544,6 +544,13 @@ def run_cases(exe, cases, tmp, env=None, args=(), timeout=900):
             if len(o) == len(c):
                 outs[start + i] = (o, 0, ""); adv = i + 1
             else:
+                if rc == -9:
+                    # the BATCH ran into the time limit while this case was being processed: that is a hang of this case only if the
+                    # case alone does not finish either (a loaded machine can exhaust the limit of a long batch without any hang)
+                    rc1, ol1, err1 = run_lines(exe, list(c), tmp + ".single", env=env, args=args, timeout=min(timeout, 300))
+                    if rc1 == 0 and len(ol1) == len(c):
+                        outs[start + i] = (ol1, 0, ""); adv = i + 1
+                        break
                 outs[start + i] = (o, rc if rc != 0 else -1, err[-500:]); adv = i + 1
                 break
         start += adv
